@@ -135,6 +135,9 @@ theorem inputs_dropped (P : List Obj) (π : List Nat → List Nat) (hπ : ∀ l,
     subst this
     exact hc (List.contains_iff_mem.mpr ((hπ _).mem_iff.mp hb))
 
+def errOf' (r : Except Err Model) : Option Err :=
+  match r with | .ok _ => none | .error e => some e
+
 /-- the witness program: `y = op(b, a)` over two arguments `a` (id 0) and `b` (id 1) -/
 def exP : List Obj :=
   [⟨true, false, "1:[]", [1, 0], []⟩, ⟨true, true, "1:[]", [], []⟩, ⟨true, true, "7:[]", [], []⟩]
@@ -183,6 +186,25 @@ theorem missing_input_keyerror (P : List Obj) (π : List Nat → List Nat) (hπ 
         (fun a => foreign (req.inputs.map (·.name)) (enter (kwargs req) s a)) = true :=
       List.any_eq_true.mpr ⟨a, hmem, foreign_unlisted req s hunnamed a hmiss⟩
     rw [if_pos this]
+
+/-- The hypothesis `hunnamed` of `missing_input_keyerror` / `inputs_dropped` cannot be dropped: the
+    code compares *names*. Argument 1 (made by the internal `arguments_dict`, preset name `"k"`) is
+    needed by the output but not listed; the unused argument 0 is listed under the key `"k"`. With
+    `drop_unused_inputs=True` the model — like the code (known finding
+    `…:preset-name-equals-key`) — returns a graph whose input `"k"` is argument 1 (type `1:[]`),
+    not the listed argument 0 (type `7:[]`), instead of raising KeyError. -/
+theorem missing_input_preset_name_counterexample :
+    inputsOf (build ir
+        [⟨true, false, "1:[]", [1], []⟩, ⟨true, true, "1:[]", [], []⟩, ⟨true, true, "7:[]", [], []⟩]
+        id true ⟨[⟨"k", 0⟩], [⟨"y", 2⟩], true⟩ (fun v => if v = 1 then some "k" else none)).2
+      = some [⟨"k", "1:[]"⟩] := by decide
+
+/-- … while with `drop_unused_inputs=False` the same request does raise KeyError (`scope.var[…]`). -/
+example :
+    errOf' (build ir
+        [⟨true, false, "1:[]", [1], []⟩, ⟨true, true, "1:[]", [], []⟩, ⟨true, true, "7:[]", [], []⟩]
+        id true ⟨[⟨"k", 0⟩], [⟨"y", 2⟩], false⟩ (fun v => if v = 1 then some "k" else none)).2
+      = some .key := by decide
 
 /-- Inputs that are not arguments raise TypeError. -/
 theorem non_argument_typeerror (P : List Obj) (π : List Nat → List Nat) (fixed : Bool) (req : Request)
